@@ -133,7 +133,37 @@ CasesStr == {[fn |-> "join", a |-> a, d |-> d, exp |-> JoinStrs(a, d, 1)] : a \i
 JoinLaws == \A a \in StrVecs : /\ JoinStrs(a, "", 1) = JoinStrs(SelectSeq(a, LAMBDA x : x # ""), "", 1)
                                /\ (Len(a) > 0 => JoinStrs(a, "-", 1) = a[1] \o JoinStrs([k \in 1..(Len(a) - 1) |-> "-" \o a[k + 1]], "", 1))
 
-Export == ndJsonSerialize(IOEnv.OUT, SetToSeq(CasesVec)) /\ ndJsonSerialize(IOEnv.OUT2, SetToSeq(CasesScalar)) /\ ndJsonSerialize(IOEnv.OUT3, SetToSeq(CasesStr))
+\* ---------------------------------------------------------------- strings as containers of characters; range adaptors; find; collate; new
+\* (elements are single-character strings; "T" stands for a TAB - the driver writes the real character)
+Chars == {"a", "b", " ", "T"}
+CharVecs == UNION {[1..n -> Chars] : n \in 0..MaxLen}
+IsWs(c) == c \in {" ", "T"}
+RECURSIVE LTrim(_), RTrim(_)
+LTrim(s) == IF s # <<>> /\ IsWs(Head(s)) THEN LTrim(Tail(s)) ELSE s
+RTrim(s) == IF s # <<>> /\ IsWs(s[Len(s)]) THEN RTrim(SubSeq(s, 1, Len(s) - 1)) ELSE s
+RECURSIVE WsPrefix(_, _)
+WsPrefix(s, i) == IF i > Len(s) \/ ~IsWs(s[i]) THEN i - 1 ELSE WsPrefix(s, i + 1)
+SpecS(f, a, n) ==
+  CASE f = "ltrim" -> LTrim(a) [] f = "rtrim" -> RTrim(a) [] f = "trim" -> LTrim(RTrim(a))
+    [] f = "take" -> SubSeq(a, 1, Clamp(n, Len(a))) [] f = "drop" -> SubSeq(a, Clamp(n, Len(a)) + 1, Len(a))
+    [] f = "reverse" -> Rev(a) [] f = "retro" -> Rev(a) [] f = "retro_retro" -> a
+    [] f = "take_while_ws" -> SubSeq(a, 1, WsPrefix(a, 1)) [] f = "drop_while_ws" -> LTrim(a)
+    [] f = "filter_nows" -> SelectSeq(a, LAMBDA c : ~IsWs(c)) [] f = "concat_self" -> a \o a [] f = "new" -> <<>>
+CasesChr == {[fn |-> f, a |-> a, n |-> 0, exp |-> SpecS(f, a, 0)] :
+                f \in {"ltrim", "rtrim", "trim", "reverse", "retro", "retro_retro", "take_while_ws", "drop_while_ws", "filter_nows", "concat_self", "new"}, a \in CharVecs}
+            \cup {[fn |-> f, a |-> a, n |-> n, exp |-> SpecS(f, a, n)] : f \in {"take", "drop"}, a \in CharVecs, n \in {-1, 0, 1, 2, MaxLen + 1}}
+\* trimming laws
+TrimLaws == \A a \in CharVecs : /\ SpecS("trim", SpecS("trim", a, 0), 0) = SpecS("trim", a, 0)
+                               /\ (SpecS("trim", a, 0) # <<>> => (~IsWs(Head(SpecS("trim", a, 0))) /\ ~IsWs(SpecS("trim", a, 0)[Len(SpecS("trim", a, 0))])))
+                               /\ SpecS("filter_nows", SpecS("trim", a, 0), 0) = SpecS("filter_nows", a, 0)
+\* on vectors of ints: retro, find (the rest of the range from the first match, empty if none), collate, new
+FirstEq(s, x) == LET c == {i \in 1..Len(s) : s[i] = x} IN IF c = {} THEN Len(s) + 1 ELSE CHOOSE i \in c : \A j \in c : i <= j
+CasesMisc == {[fn |-> "retro", a |-> a, n |-> 0, exp |-> Rev(a)] : a \in Vecs} \cup {[fn |-> "retro_retro", a |-> a, n |-> 0, exp |-> a] : a \in Vecs}
+             \cup {[fn |-> "find", a |-> a, n |-> x, exp |-> SubSeq(a, FirstEq(a, x), Len(a))] : a \in Vecs, x \in Vals \cup {7}}
+             \cup {[fn |-> "collate", a |-> <<x, y>>, n |-> 0, exp |-> <<x, y>>] : x \in Vals, y \in Vals}
+             \cup {[fn |-> "new", a |-> a, n |-> 0, exp |-> <<>>] : a \in Vecs}
+
+Export == ndJsonSerialize(IOEnv.OUT4, SetToSeq(CasesChr)) /\ ndJsonSerialize(IOEnv.OUT5, SetToSeq(CasesMisc)) /\ ndJsonSerialize(IOEnv.OUT, SetToSeq(CasesVec)) /\ ndJsonSerialize(IOEnv.OUT2, SetToSeq(CasesScalar)) /\ ndJsonSerialize(IOEnv.OUT3, SetToSeq(CasesStr))
 
 VARIABLE dummy
 Init == dummy = 0
